@@ -510,7 +510,7 @@ def project(events, run_index=0):
             ev("GPTrainSet", site=e["site"], ntrain=e["ntrain"], nunlogged=e["n_unlogged"],
                nvalmis=e["n_valmis"], s2ok=e["s2_ok"], s2lenok=e["s2_len_ok"],
                allused=bool(e.get("all_logged_used", True)), refit=bool(e.get("refit", False)),
-               centre=e.get("centre", "na"))
+               centre=e.get("centre", "na"), trainisnbr=bool(e.get("train_is_nbr", True)))
         elif t == "Neighbors":
             ev("Neighbors", site=e["site"], ntrain=e["ntrain"], want=e["want"], sortedok=e["sorted_ok"],
                nnearer=e["n_nearer_excluded"], nunmatched=e["n_unmatched"], ndup=e["n_dup_rows"])
@@ -536,7 +536,7 @@ def project(events, run_index=0):
             ev("Result", **_project_result(e, sc, rb, cons_ev, mode, D, lb, ub, pid_of, xR, RY, RS, consf, events))
         elif t == "Crash":
             fr = e.get("frame") or ""
-            ev("Crash", type=e["type"], frame=fr, injected=bool(e["type"] in ("InjectedTargetError", "InjectedTargetError2", "InjectedStopIteration")),
+            ev("Crash", type=e["type"], frame=fr, injected=bool(e["type"] in ("InjectedTargetError", "InjectedTargetError2", "InjectedStopIteration", "InjectedLinAlgError")),
                ncalls=e["ncalls"], fc=e["fc"],
                loggedfinite=_logged_finite(e.get("final")),
                nlog=int(e["final"]["Xn"] + 1) if e.get("final") else -1)
